@@ -52,6 +52,7 @@ has ended (`late`; e.g. by a commit listener) cannot be waited for by any implem
 all-states form `child_afterclose_before_parent_triple` is about the children that existed then.
 -/
 import Goat.Proofs.ScopeClose
+import Goat.Proofs.ScopeClosers
 
 namespace Goat.C11
 
@@ -280,6 +281,49 @@ theorem finish_once (sched : List Act) (s : Nat) (hph : ((run sched).scp s).phas
 
 example : ((run [.new, .addTasks 0 1, .close 0]).scp 0).phase ≠ .opened ∧ 0 < (run [.new, .addTasks 0 1, .close 0]).nScopes := by
   decide
+
+/-! ### 5b. Closing from several goroutines AT THE SAME TIME (`Goat/Model/ScopeClosers.lean`)
+
+Any number of goroutines call `Close` on one scope; a schedule is any list of goroutine numbers (the next
+step of that goroutine); every goroutine has its own program counter (idle, run i, refused, done).
+Protocol steps: 0 beforeClose, 1-3 the triple, 4 afterClose, 5 `parent.DoneTask()`.  `run true` is the
+code (test of `closed` and `closed = true` are ONE step: both sit under `scp.mu`); `run false` is the
+variant in which they are two steps (seeded change C11-9). -/
+
+/-- For ALL interleavings of ANY number of concurrent closers, with the test-and-set atomic: what has
+been fired is an initial piece of the protocol in protocol order, so every close event — and the
+parent's `DoneTask()` — happens at most once; and once some call has returned, exactly once. -/
+theorem close_protocol_once (sched : List Nat) :
+    (Closers.run true sched).fired <+: List.range Closers.protoLen ∧
+    ∀ g, (Closers.run true sched).pc g = .done → (Closers.run true sched).fired = List.range Closers.protoLen :=
+  ⟨Closers.fired_prefix (Closers.inv_run sched), fun _ hd => Closers.done_fired_all (Closers.inv_run sched) hd⟩
+
+/-- … and at most one of the callers runs the protocol: if `g` got past the guard, every other goroutine
+has not called yet or has been refused (the `scope … is closed at` panic) — nobody else runs, nobody is
+between test and set. -/
+theorem closers_one_winner (sched : List Nat) (g : Nat) (hg : ((Closers.run true sched).pc g).runs = true) :
+    ∀ x, x ≠ g → (Closers.run true sched).pc x = .idle ∨ (Closers.run true sched).pc x = .refused :=
+  Closers.winner_unique (Closers.inv_run sched) hg
+
+-- four closers in some interleaving: goroutine 2 wins, 0 1 3 are refused, everything fired once
+example :
+    let st := Closers.run true [2, 0, 2, 1, 3, 2, 2, 0, 2, 2, 2]
+    st.pc 2 = .done ∧ st.pc 0 = .refused ∧ st.pc 1 = .refused ∧ st.pc 3 = .refused ∧
+      st.fired = [0, 1, 2, 3, 4, 5] := by decide
+
+/-- THE ATOMICITY MATTERS.  With test and set as two steps (the mutex narrowed to the assignment) two
+callers can both pass the test: both run the protocol — beforeClose fires twice, every other event
+fires twice, and the parent's task count is decremented twice. -/
+theorem split_guard_runs_protocol_twice :
+    ∃ sched : List Nat,
+      ((Closers.run false sched).pc 0).runs = true ∧ ((Closers.run false sched).pc 1).runs = true ∧
+      (Closers.run false sched).fired.count 0 = 2 ∧ (Closers.run false sched).fired.count 4 = 2 ∧
+      (Closers.run false sched).fired.count 5 = 2 ∧
+      ¬ (Closers.run false sched).fired <+: List.range Closers.protoLen :=
+  ⟨[0, 1, 0, 1, 0, 0, 1, 0, 1, 0, 1, 0, 1, 0, 1, 1], by decide⟩
+
+-- a sequential second Close is refused in the split variant too (why the package's tests do not see it)
+example : (Closers.run false [0, 0, 0, 1]).pc 1 = .refused := by decide
 
 /-! ### 6. A child sharing the parent's context fails the parent -/
 
